@@ -496,7 +496,7 @@ PROPS["C19"] = {
                    "MSM payloads), corrupted frames, junk and payloads rich in '<', '>', '</div>', '<script>', in generated chunkings and pauses in both directions; both "
                    "byte streams must arrive unchanged, the process must survive, and /status/report must match the fixed template with markup-free traffic sections and "
                    "list only frames that are contiguous parts of the relayed client-to-server traffic. The same template oracle runs in-process on ReportFeed.Status "
-                   "for thousands of generated buffers and message lists. A quarter of the sessions run through a second proxy process in TLS mode (-s) with a TLS 1.2 or 1.3 client; several simultaneous clients are outside the statement."),
+                   "for thousands of generated buffers and message lists. A quarter of the sessions run through a second proxy process in TLS mode (-s) with a TLS 1.2 or 1.3 client; two simultaneous sessions (the first with a stalled upstream and megabytes queued) are exercised by the two-sessions leg; more than two are outside the statement."),
     "rule": ("relay: (client->server pieces + chunk/pause script, server->client pieces + script, fetch report or not); report: (client buffer, server buffer, message pieces, "
              "buffers present or not). Non-trivial = the session carries a 0xD3-led frame and markup bytes / the traffic contains '<' or '>' and at least one message is "
              "listed; distinct = distinct case hash."),
@@ -506,6 +506,7 @@ PROPS["C19"] = {
         Leg("report", "c19", "^TestReport$", checks=(2000, 100000), shards=(2, 16), tests=["report"]),
         Leg("long-idle", "c19", "^TestLongIdle$", engine="process", app=["proxy"], checks=(1, 2), shards=(2, 4), tests=["long-idle"], replay_attempts=2),
         Leg("hangup", "c19", "^TestHangup$", engine="process", app=["proxy"], checks=(4, 40), shards=(4, 8), tests=["hangup"], replay_attempts=3),
+        Leg("two-sessions", "c19", "^TestTwoSessions$", engine="process", app=["proxy"], checks=(2, 12), shards=(2, 4), tests=["two-sessions"], replay_attempts=2),
         Leg("relay", "c19", "^TestRelay$", engine="process", app=["proxy"], checks=(40, 5000), shards=(8, 16), tests=["relay"], replay_attempts=3),
     ],
 }
